@@ -16,9 +16,19 @@ def values(result):
     return [[(p.mu, p.sigma) for p in team] for team in result]
 
 
+class ShapeError(Exception):
+    """rate() returned something that does not have the nesting of its argument (a library violation, reported by
+    whichever check made the call)."""
+
+
 def rate(model, game, **kw):
     """One real rate() call on fresh ratings; returns [[(mu, sigma)]] of the result."""
-    return values(model.rate(ratings(model, game), **kw))
+    out = model.rate(ratings(model, game), **kw)
+    if (not isinstance(out, list) or len(out) != len(game)
+            or any(not isinstance(T, list) or len(T) != len(G) for T, G in zip(out, game))):
+        got = [len(T) if isinstance(T, list) else type(T).__name__ for T in out] if isinstance(out, list) else type(out).__name__
+        raise ShapeError(f"result has team sizes {got}, the argument has {[len(G) for G in game]}")
+    return values(out)
 
 
 def all_finite(vals):
@@ -49,3 +59,49 @@ def uncase_game(case):
 
 def close(a, b, rel, scale=0.0):
     return abs(a - b) <= rel * max(abs(a), abs(b), scale)
+
+
+def ratings_aliased(model, game):
+    """Like ratings(), but teams with identical values are ONE list object placed in several slots (legal for the
+    predictors, which do not modify anything).  Returns None when the game has no duplicate team."""
+    seen = {}
+    out = []
+    dup = False
+    for team in game:
+        key = tuple(team)
+        if key in seen:
+            dup = True
+        else:
+            seen[key] = [model.rating(m, s) for (m, s) in team]
+        out.append(seen[key])
+    return out if dup else None
+
+
+_DECOY_DONE = [False]
+
+
+def decoy_prelude(force=False, factor=3.0):
+    """Run once per worker process before anything else: every operation of every class on a model with
+    DIFFERENT parameters, over the team counts / player counts the checks use.  A process-global cache keyed by
+    too little (player count, team count, positions ...) is thereby filled with values that are wrong for every
+    configuration the checks use, so the reference / differential oracles see it.  Correct (stateless) code is
+    unaffected."""
+    if _DECOY_DONE[0] and not force:
+        return
+    _DECOY_DONE[0] = True
+    b = factor * spaces.BETA0 + 0.123
+    shapes = [(1,) * n for n in range(2, 9)] + [(2, 2), (1, 2), (2, 1), (3, 3), (1, 3), (3, 1), (2, 2, 2), (1, 2, 1), (2, 1, 2), (8,) * 8, (16, 16),
+              (8, 1, 8, 1, 8, 1, 8, 1), (1, 2, 3, 4, 5, 6, 7, 8), (16,) * 3, (16,) * 8, (2, 3), (3, 2), (1, 1, 2), (2, 2, 1), (2, 1, 1), (1, 2, 2)]
+    for kind in spaces.KINDS:
+        try:
+            m = spaces.model_class(kind)(mu=5 * b, sigma=1.7 * b, beta=b, kappa=3e-3, tau=0.4 * b)
+            for sh in shapes:
+                g = [[(5 * b + 0.3 * i * b, 1.1 * b)] * sz for i, sz in enumerate(sh)]
+                m.predict_win(ratings(m, g))
+                m.predict_draw(ratings(m, g))
+                m.predict_rank(ratings(m, g))
+                if sum(sh) <= 12:
+                    m.rate(ratings(m, g))
+                    m.rate(ratings(m, g), ranks=[(i * 2) % len(sh) for i in range(len(sh))], tau=0.1 * b, limit_sigma=True)
+        except Exception:
+            pass  # a failing library call is reported by the checks proper, not by the prelude
